@@ -244,6 +244,7 @@ def run(eng, rep) -> None:
     rep.rule("R12.4", "key k is fed from attribute k; no serialised attribute dropped; every concrete Type overrides reflection")
     rep.rule("R12.5", "CLI encode names the struct describing FcpV2.reflection()")
     rep.rule("R12.6", "reflection() returns fresh records: no module-level object returned, no in-place change of another record")
+    rep.rule("R12.7", "a Type entry built inside a loop that walks a chain of types reads every value from the node the walk is at")
     rep.assume("byte-level losslessness of the codec itself is C01/C02 applied to reflection.fcp; float range metadata is stored as f64 exactly")
     g = Grammar(prog)
     recs = mini_schema(g, eng.read("src", "fcp", "reflection", "reflection.fcp"))
@@ -372,6 +373,77 @@ def run(eng, rep) -> None:
                 if any(isinstance(v, ast.Call) and isinstance(v.func, ast.Attribute) and v.func.attr == "reflection" for v in vals):
                     rep.violation("R12.6", f.file, f.qual, norm(st, 60), "the record returned by another reflection() is modified in place: if that record is shared the description of other fields changes")
     rep.ok("R12.6", "-", "-", "freshness of records", "scanned")
+    # ---- R12.7: an entry built while walking a chain of types describes the node the walk is at --------
+    tkeys = {n for n, _, _ in recs.get("Type", [])}
+    n_walk = 0
+    for f in [x for x in prog.functions.values() if x.module.name == tb.module.name or x.name == "reflection"]:
+        n_walk += 1
+        f_locals = {a.arg for a in f.node.args.args + f.node.args.kwonlyargs} | {n.id for n in walk_local(f.node) if isinstance(n, ast.Name) and isinstance(n.ctx, ast.Store)}
+
+        def vnames(e):
+            return {n.id for n in ast.walk(e) if isinstance(n, ast.Name) and n.id in f_locals}
+
+        def both_arms(name, st):
+            if not isinstance(st, ast.If) or not st.orelse:
+                return None
+            out = []
+            for arm in (st.body, st.orelse):
+                if len(arm) == 1 and isinstance(arm[0], ast.If):
+                    sub = both_arms(name, arm[0])
+                    if sub is None:
+                        return None
+                    out += sub
+                    continue
+                hit = [a for a in arm if isinstance(a, ast.Assign) and any(isinstance(t, ast.Name) and t.id == name for t in a.targets)]
+                if not hit:
+                    return None
+                out.append(hit[-1])
+            return out
+        for loop in [n for n in walk_local(f.node) if isinstance(n, (ast.While, ast.For))]:
+            assigned = {}
+            for st in loop.body:
+                for n in ast.walk(st):
+                    if isinstance(n, (ast.Assign, ast.AnnAssign, ast.AugAssign)):
+                        for t in (n.targets if isinstance(n, ast.Assign) else [n.target]):
+                            if isinstance(t, ast.Name):
+                                assigned.setdefault(t.id, []).append((st, n))
+            head = loop.test if isinstance(loop, ast.While) else loop.target
+            cursors = {n.id for n in ast.walk(head) if isinstance(n, ast.Name) and (n.id in assigned or isinstance(loop, ast.For))}
+            if not cursors:
+                continue
+            for st_i, st in enumerate(loop.body):
+                for d in [n for n in ast.walk(st) if isinstance(n, ast.Dict)]:
+                    keys = [k.value for k in d.keys if isinstance(k, ast.Constant)]
+                    if not tkeys or set(keys) != tkeys:
+                        continue
+                    for k, v in zip(keys, d.values):
+                        site = "'%s': %s (walk over %s)" % (k, norm(v, 40), ",".join(sorted(cursors)))
+                        if isinstance(v, ast.Constant):
+                            continue
+                        names = vnames(v)
+                        if isinstance(v, ast.Name):
+                            defs_in = assigned.get(v.id, [])
+                            uncond = [a for s_, a in defs_in if s_ is a and loop.body.index(s_) < st_i]
+                            for s_ in loop.body[:st_i]:
+                                uncond += both_arms(v.id, s_) or []
+                            if uncond:
+                                names = set().union(*[vnames(a.value) for a in uncond]) if all(a.value is not None for a in uncond) else set()
+                                if not names:
+                                    continue
+                            elif defs_in:
+                                rep.violation("R12.7", f.file, f.qual, site, "`%s` is set only on some iterations and otherwise keeps the value of an earlier (outer) node: entries of inner nodes inherit it" % v.id)
+                                continue
+                            else:
+                                rep.violation("R12.7", f.file, f.qual, site, "`%s` is fixed before the walk: every entry gets the value of the first node" % v.id)
+                                continue
+                        foreign = sorted(n for n in names if n not in cursors)
+                        if names & cursors and not foreign:
+                            rep.ok("R12.7", f.file, f.qual, site, "read from the node the walk is at")
+                        elif foreign and any(x == "self" or x not in assigned for x in foreign):
+                            rep.violation("R12.7", f.file, f.qual, site, "value is read from %s, not from the node the walk is at (%s): entries of inner nodes repeat the outer node's value" % (",".join(foreign), ",".join(sorted(cursors))))
+                        else:
+                            rep.undecided("R12.7", f.file, f.qual, site, "origin of the value not recognised")
+    rep.ok("R12.7", "-", "-", "iterative chain walks", "%d functions scanned" % n_walk)
     # ---- R12.2 ---------------------------------------------------------------------
     refl_funcs = [f for f in prog.functions.values() if f.name == "reflection" and f.cls is not None]
     n_calls = 0
